@@ -221,9 +221,33 @@ def starts_for(z, seed, thorough):
     return out
 
 
+SAME_INSTANT_ZONES = ("UTC", "Asia/Tokyo", "Asia/Kolkata", "America/Bogota")
+
+
+def run_same_instant(acc, pendulum, inst, thorough):
+    """Intervals that start at the SAME instant shown in several zones, explored one after the other: the starts are
+    equal and hash-equal, so anything remembered per start must not leak from one zone's range() into the next."""
+    for unit in UNITS:
+        for si, span in enumerate(SPANS[unit]):
+            if not thorough and si % 2:
+                continue
+            for sign, mode in ((1, "forward"), (-1, "inverted")):
+                for n in (1, 2, 3):
+                    for z in SAME_INSTANT_ZONES:
+                        f = obs.expected_render(z, inst)[0]
+                        check_range(acc, pendulum, z, f, span, sign, mode, unit, n)
+                        acc.c["nontrivial"] += 1
+
+
 def run_shard(shard):
     import pendulum
     acc = core.Acc(ID)
+    if shard.get("kind") == "same-instant":
+        for inst in shard["instants"]:
+            acc.c["states"] += len(SAME_INSTANT_ZONES)
+            run_same_instant(acc, pendulum, inst, shard["thorough"])
+        acc.sample({"same_instant_starts_in": list(SAME_INSTANT_ZONES), "instant": obs.iso(shard["instants"][0])})
+        return acc.result()
     z = shard["z"]
     thorough = shard["thorough"]
     steps = range(1, 13) if thorough else (1, 2, 3, 5, 7, 12)
@@ -265,6 +289,9 @@ def plan(tier, seed):
     # the same exploration on the pure-Python helpers (is_leap / days_in_year / precise_diff twins) for the zones
     # whose reference does not depend on the tz database
     py = [sh for sh in shards if sh["z"] in ("UTC", "date", None)]
+    si = [(calref.days_from_civil(y, m, d) * 86400 + 23 * 3600 + 1800) * US for y, m, d in
+          ((2023, 1, 30), (2024, 2, 28), (2023, 12, 31), (2023 + seed % 3, 3, 30))]
+    shards += [{"kind": "same-instant", "instants": [i], "thorough": thorough} for i in si]
     return [({"ext": 1, "tz": "sys"}, shards), ({"ext": 0, "tz": "sys"}, py if thorough else py[::2] + py[1::4])]
 
 
